@@ -523,6 +523,63 @@ def no_global_state(ctx, rule: str, consequence: str):
                 bad_all.append(what)
                 ctx.ob(rule, f"{f.qual} writes process-wide state", False, where=f.fq, construct=f"process-wide state written in {f.qual}: {what}",
                        loc=loc(f, node), message=f"{f.qual} modifies module- or class-level state: L{node.lineno} {what}", consequence=consequence)
+    # mutable objects created in a class body and never replaced per instance are shared by all instances: a store or a
+    # mutating call through `self.X` (or through a local bound to `self.X`) writes state that outlives the object
+    shared_sites = 0
+    for m in repo.modules.values():
+        if m.name.startswith("tdgl.test"):
+            continue
+        for c in m.classes.values():
+            mutable = {}
+            for st in c.node.body:
+                tgt = val = None
+                if isinstance(st, ast.Assign) and len(st.targets) == 1 and isinstance(st.targets[0], ast.Name):
+                    tgt, val = st.targets[0].id, st.value
+                elif isinstance(st, ast.AnnAssign) and isinstance(st.target, ast.Name) and st.value is not None:
+                    tgt, val = st.target.id, st.value
+                if tgt is None or tgt.startswith("__"):
+                    continue
+                is_mut = isinstance(val, (ast.Dict, ast.List, ast.Set, ast.ListComp, ast.DictComp, ast.SetComp)) or (
+                    isinstance(val, ast.Call) and norm(val.func).split(".")[-1] in ("dict", "list", "set", "defaultdict", "OrderedDict", "deque", "Counter", "WeakKeyDictionary", "WeakValueDictionary"))
+                if is_mut:
+                    mutable[tgt] = st
+            if not mutable:
+                continue
+            methods = [f for f in m.functions.values() if f.qual.startswith(c.name + ".") and f.qual.count(".") == 1]
+            # an attribute every instance replaces in __init__ (unconditionally, at top level) is per-instance state
+            for f in methods:
+                if f.qual == c.name + ".__init__":
+                    for st in f.node.body:
+                        for t in (st.targets if isinstance(st, ast.Assign) else [st.target] if isinstance(st, ast.AnnAssign) and st.value is not None else []):
+                            if isinstance(t, ast.Attribute) and isinstance(t.value, ast.Name) and t.value.id == "self":
+                                mutable.pop(t.attr, None)
+            for f in methods:
+                aliases = {}
+                for x in own_nodes(f.node):
+                    if isinstance(x, ast.Assign) and len(x.targets) == 1 and isinstance(x.targets[0], ast.Name) and isinstance(x.value, ast.Attribute) \
+                            and isinstance(x.value.value, ast.Name) and x.value.value.id == "self" and x.value.attr in mutable:
+                        aliases[x.targets[0].id] = x.value.attr
+
+                def shared_of(e):
+                    if isinstance(e, ast.Attribute) and isinstance(e.value, ast.Name) and e.value.id == "self" and e.attr in mutable:
+                        return e.attr
+                    if isinstance(e, ast.Name) and e.id in aliases:
+                        return aliases[e.id]
+                    return None
+                for x in own_nodes(f.node):
+                    hit = None
+                    if isinstance(x, ast.Subscript) and isinstance(x.ctx, (ast.Store, ast.Del)):
+                        hit = shared_of(x.value)
+                    elif isinstance(x, ast.Call) and isinstance(x.func, ast.Attribute) and x.func.attr in CONTAINER_MUTATORS:
+                        hit = shared_of(x.func.value)
+                    elif isinstance(x, ast.AugAssign):
+                        hit = shared_of(x.target)
+                    if hit:
+                        shared_sites += 1
+                        what = f"{norm(x)[:60]} (the object `{hit}` is created once in the body of class {c.name} and shared by every instance)"
+                        bad_all.append(what)
+                        ctx.ob(rule, f"{f.qual} writes process-wide state", False, where=f.fq, construct=f"class-level mutable `{c.name}.{hit}` modified through an instance in {f.qual}",
+                               loc=loc(f, x), message=f"{f.qual} modifies module- or class-level state: L{x.lineno} {what}", consequence=consequence)
     ctx.ob(rule, f"{n} functions scanned: none writes module- or class-level state", True, detail={"functions": n}, where="package",
            construct="process-wide state (package)")
     if n < 150:
